@@ -490,8 +490,11 @@ Proof. destruct v as [[|] s| | | |]; simpl; intro H; try reflexivity. exact H. Q
 Lemma arg_tls_ok a : arg_ok a = true -> m_ok (arg_tls a) = true.
 Proof. intro H. apply tls_plain_ok, H. Qed.
 
-Lemma arg_str_ok a : arg_ok a = true -> m_ok (arg_str a) = true.
-Proof. destruct a as [[|] s| | |]; simpl; intro H; try reflexivity. exact H. Qed.
+Lemma opt_end_ok e : opt_arg_ok e = true -> m_ok (opt_end e) = true.
+Proof. destruct e as [a|]; intro H; [apply arg_tls_ok, H|reflexivity]. Qed.
+
+Lemma opt_sep_ok e : opt_arg_ok e = true -> m_ok (opt_sep e) = true.
+Proof. destruct e as [a|]; intro H; [apply arg_tls_ok, H|reflexivity]. Qed.
 
 Lemma forallb_flat_map {A B} (p : B -> bool) (f : A -> list B) l :
   (forall x, In x l -> forallb p (f x) = true) -> forallb p (flat_map f l) = true.
@@ -565,8 +568,11 @@ Qed.
 Lemma f_slice_ok v st ln : safe_ok v = true -> safe_ok (f_slice v st ln) = true.
 Proof.
   destruct v as [[|] s| | | |l]; intro H; unfold f_slice; try reflexivity.
-  - cbn [safe_ok]. eapply Clean_incl; [apply py_slice_incl|exact H].
-  - cbn [safe_ok] in *. eapply forallb_incl; [apply py_slice_incl|exact H].
+  - destruct (_ <? - _)%Z; [reflexivity|].
+    cbn [safe_ok]. eapply Clean_incl; [apply py_slice_incl|exact H].
+  - destruct (_ <? - _)%Z; reflexivity.
+  - destruct (_ <? - _)%Z; [reflexivity|].
+    cbn [safe_ok] in *. eapply forallb_incl; [apply py_slice_incl|exact H].
 Qed.
 
 (** What the theorems assume about the abstract library functions. *)
@@ -587,7 +593,7 @@ Proof.
   intros HL Hf Hv He.
   pose proof (tls_plain_ok v Hv) as Hsv.
   destruct f; cbn [filter_ok] in Hf; cbn [eval_filter] in He.
-  - (* append *) ok_inj He. rewrite safe_ok_vstr. apply str_add_ok; [exact Hsv|apply arg_str_ok, Hf].
+  - (* append *) ok_inj He. rewrite safe_ok_vstr. apply str_add_ok; [exact Hsv|apply arg_tls_ok, Hf].
   - (* prepend *) ok_inj He. rewrite safe_ok_vstr. apply str_add_ok; [apply arg_tls_ok, Hf|exact Hsv].
   - ok_inj He. apply safe_ok_keep; [exact Hsv|apply upper_Clean].
   - ok_inj He. apply safe_ok_keep; [exact Hsv|apply lower_Clean].
@@ -635,9 +641,8 @@ Proof.
     rewrite Forall_forall in Hi. specialize (Hi p Hp).
     apply safe_ok_keep; [exact Hsv|]. rewrite Es. apply Clean_incl, Hi.
   - (* join *) ok_inj He. rewrite safe_ok_vstr. apply str_join_ok.
-    + set (sp := match sep with Some a => arg_str a | None => (false, [32]) end).
-      assert (Hsp : m_ok sp = true).
-      { subst sp. destruct sep as [a|]; [apply arg_str_ok, Hf|reflexivity]. }
+    + set (sp := opt_sep sep).
+      assert (Hsp : m_ok sp = true) by (apply opt_sep_ok, Hf).
       destruct (str_eq_cp (snd sp) [32]) eqn:E; [apply m_ok_safe, str_eq_cp_space, E|exact Hsp].
     + apply forallb_forall. intros m Hm. apply in_map_iff in Hm as (x & <- & Hx).
       apply tls_plain_ok. pose proof (sequence_arg_ok v Hv) as Hq.
@@ -660,7 +665,8 @@ Proof.
     destruct (Z.of_nat _ <=? _)%Z; ok_inj He; [rewrite safe_ok_vstr; exact Hsv|reflexivity].
   - (* truncatewords *)
     destruct (MAX_TRUNC_WORDS <=? _)%Z; [ok_inj He; rewrite safe_ok_vstr; exact Hsv|].
-    destruct (Z.of_nat _ <=? _)%Z; ok_inj He; reflexivity.
+    destruct (Z.of_nat _ <=? _)%Z; ok_inj He; [reflexivity|].
+    rewrite safe_ok_vstr. apply str_add_ok; [reflexivity|apply opt_end_ok, Hf].
   - (* default *)
     destruct v as [sf s|z|[|]| |l]; cbn [is_empty_val] in He.
     + destruct s; ok_inj He; [exact Hf|exact Hv].
@@ -737,6 +743,32 @@ Lemma eval_left_capture L body :
   eval_left L (LCapture body) = do r <- capture_go L body ;; Ok (VStr true r).
 Proof. reflexivity. Qed.
 
+(** A template string evaluates like a capture of its pieces (fix 611e27a). *)
+Lemma eval_left_tmpl L ps :
+  eval_left L (LTmpl ps) = do r <- capture_go L ps ;; Ok (VStr true r).
+Proof. reflexivity. Qed.
+
+Lemma capture_go_Clean L ps r :
+  (forall s, Clean s -> Clean (strip_tags_fn L s)) ->
+  Forall (fun p => forall v, left_ok (fst p) = true -> eval_left L (fst p) = Ok v -> safe_ok v = true) ps ->
+  forallb (fun p => left_ok (fst p) && forallb filter_ok (snd p)) ps = true ->
+  capture_go L ps = Ok r -> Clean r.
+Proof.
+  intros HL IH Hok. revert r. induction ps as [|[e ch] ps IHps]; intros r E.
+  - injection E as <-. reflexivity.
+  - cbn [capture_go] in E. fold (capture_go L) in E.
+    inversion IH as [|? ? Pe Pps]; subst. cbn [fst] in Pe.
+    cbn [forallb fst snd] in Hok. apply andb_true_iff in Hok as [Hp Hps].
+    apply andb_true_iff in Hp as [He Hch].
+    destruct (eval_left L e) as [v| | |] eqn:E1; try discriminate. cbn [bind] in E.
+    destruct (eval_chain L ch v) as [w| | |] eqn:E2; try discriminate. cbn [bind] in E.
+    destruct (capture_go L ps) as [r'| | |] eqn:E3; try discriminate. cbn [bind] in E.
+    injection E as <-. apply Clean_app; split.
+    + apply tls_ae_Clean. eapply eval_chain_safe; [exact HL|exact Hch| |exact E2].
+      apply Pe; [exact He|reflexivity].
+    + apply (IHps Pps Hps _ eq_refl).
+Qed.
+
 Lemma eval_left_safe L e v :
   (forall s, Clean s -> Clean (strip_tags_fn L s)) ->
   left_ok e = true -> eval_left L e = Ok v -> safe_ok v = true.
@@ -744,25 +776,12 @@ Proof.
   intro HL. revert v. induction e as [s|w|ps IH|ps IH] using left_ind'; intros v Hok He.
   - injection He as <-. exact Hok.
   - injection He as <-. exact Hok.
-  - cbn [eval_left] in He.
-    match type of He with (do r <- ?X ;; _) = _ => destruct X as [r| | |]; try discriminate end.
-    injection He as <-. reflexivity.
+  - rewrite eval_left_tmpl in He.
+    destruct (capture_go L ps) as [r| | |] eqn:E; try discriminate. injection He as <-.
+    cbn [safe_ok]. cbn [left_ok] in Hok. eapply capture_go_Clean; eassumption.
   - rewrite eval_left_capture in He.
     destruct (capture_go L ps) as [r| | |] eqn:E; try discriminate. injection He as <-.
-    cbn [safe_ok]. cbn [left_ok] in Hok. clear -HL IH Hok E.
-    revert r E. induction ps as [|[e ch] ps IHps]; intros r E.
-    + injection E as <-. reflexivity.
-    + cbn [capture_go] in E. fold (capture_go L) in E.
-      inversion IH as [|? ? Pe Pps]; subst. cbn [fst] in Pe.
-      cbn [forallb fst snd] in Hok. apply andb_true_iff in Hok as [Hp Hps].
-      apply andb_true_iff in Hp as [He Hch].
-      destruct (eval_left L e) as [v| | |] eqn:E1; try discriminate. cbn [bind] in E.
-      destruct (eval_chain L ch v) as [w| | |] eqn:E2; try discriminate. cbn [bind] in E.
-      destruct (capture_go L ps) as [r'| | |] eqn:E3; try discriminate. cbn [bind] in E.
-      injection E as <-. apply Clean_app; split.
-      * apply tls_ae_Clean. eapply eval_chain_safe; [exact HL|exact Hch| |exact E2].
-        apply Pe; [exact He|reflexivity].
-      * apply (IHps Pps Hps _ eq_refl).
+    cbn [safe_ok]. cbn [left_ok] in Hok. eapply capture_go_Clean; eassumption.
 Qed.
 
 (** ** T2 at kernel level: whatever [{{ left | chain }}] writes is untainted. *)
@@ -1058,11 +1077,11 @@ Proof. destruct a; reflexivity. Qed.
 Lemma arg_tls_untag a : arg_tls (untag_arg a) = untag_m (arg_tls a).
 Proof. unfold arg_tls. rewrite arg_val_untag. apply tls_plain_untag. Qed.
 
-Lemma arg_str_untag a : arg_str (untag_arg a) = untag_m (arg_str a).
-Proof.
-  destruct a as [sf s|z|[|]|]; unfold untag_m; cbn [untag_arg arg_str fst snd]; try reflexivity.
-  rewrite Z_to_str_untag. reflexivity.
-Qed.
+Lemma opt_end_untag e : opt_end (option_map untag_arg e) = untag_m (opt_end e).
+Proof. destruct e as [a|]; [apply arg_tls_untag|reflexivity]. Qed.
+
+Lemma opt_sep_untag e : opt_sep (option_map untag_arg e) = untag_m (opt_sep e).
+Proof. destruct e as [a|]; [apply arg_tls_untag|reflexivity]. Qed.
 
 Lemma arg_falsy_untag a : arg_falsy (untag_arg a) = arg_falsy a.
 Proof. destruct a as [sf [|c s]| | |]; reflexivity. Qed.
@@ -1105,13 +1124,16 @@ Qed.
 Lemma f_slice_untag v st ln : f_slice (untag_val v) st ln = untag_val (f_slice v st ln).
 Proof.
   destruct v as [sf s|z|b| |l]; unfold f_slice; cbn [untag_val].
-  - unfold untag. rewrite py_slice_map. reflexivity.
-  - unfold untag. rewrite <- py_slice_map. fold (untag (Z_to_str z)). rewrite Z_to_str_untag. reflexivity.
-  - unfold untag. rewrite <- py_slice_map. fold (untag (if b then s_True else s_False)).
+  - rewrite untag_length. destruct (_ <? - _)%Z; [reflexivity|].
+    cbn [untag_val]. rewrite py_slice_untag. reflexivity.
+  - destruct (_ <? - _)%Z; [reflexivity|]. cbn [untag_val].
+    rewrite <- py_slice_untag, Z_to_str_untag. reflexivity.
+  - destruct (_ <? - _)%Z; [reflexivity|]. cbn [untag_val]. rewrite <- py_slice_untag.
     rewrite untag_small; [reflexivity|destruct b; [apply small_True|apply small_False]].
-  - unfold untag. rewrite <- py_slice_map. fold (untag s_None).
+  - destruct (_ <? - _)%Z; [reflexivity|]. cbn [untag_val]. rewrite <- py_slice_untag.
     rewrite untag_small by apply small_None. reflexivity.
-  - rewrite py_slice_map. reflexivity.
+  - rewrite map_length. destruct (_ <? - _)%Z; [reflexivity|].
+    cbn [untag_val]. rewrite py_slice_map. reflexivity.
 Qed.
 
 Lemma flat_map_map {A B C} (f : B -> list C) (g : A -> B) l :
@@ -1172,7 +1194,7 @@ Lemma eval_filter_untag L f v :
 Proof.
   intro HL.
   destruct f; cbn [untag_filter eval_filter res_map];
-    rewrite ?tls_plain_untag, ?arg_tls_untag, ?arg_str_untag, ?untag_m_fst, ?untag_m_snd.
+    rewrite ?tls_plain_untag, ?arg_tls_untag, ?opt_end_untag, ?opt_sep_untag, ?untag_m_fst, ?untag_m_snd.
   - (* append *) rewrite str_add_untag. reflexivity.
   - rewrite str_add_untag. reflexivity.
   - rewrite upper_untag. reflexivity.
@@ -1216,11 +1238,8 @@ Proof.
       fold (untag (snd (arg_tls a))). rewrite str_eq_cp_untag. destruct (str_eq_cp (c0 :: s0) (snd (arg_tls a))); [reflexivity|].
       rewrite split_on_untag. cbn [res_map untag_val]. rewrite !map_map. reflexivity.
   - (* join *)
-    assert (E : match option_map untag_arg sep with Some a => arg_str a | None => (false, [32]) end
-                = untag_m (match sep with Some a => arg_str a | None => (false, [32]) end)).
-    { destruct sep as [a|]; [apply arg_str_untag|reflexivity]. }
-    rewrite E. set (sp := match sep with Some a => arg_str a | None => (false, [32]) end).
-    rewrite untag_m_snd. change [32] with (untag [32]) at 1 2. rewrite str_eq_cp_untag.
+    set (sp := opt_sep sep).
+    change [32] with (untag [32]) at 1 2. rewrite str_eq_cp_untag.
     rewrite sequence_arg_untag, map_map.
     assert (E2 : map (fun x => tls_plain (untag_val x)) (sequence_arg v)
                  = map untag_m (map tls_plain (sequence_arg v))).
@@ -1244,26 +1263,21 @@ Proof.
   - (* escape *) rewrite escape_untag. reflexivity.
   - cbn [untag_val]. rewrite (html_unescape_tr L HL). reflexivity.
   - (* truncate *)
-    assert (E : snd match option_map untag_arg e with Some a => arg_str a | None => (false, s_dots) end
-                = untag (snd match e with Some a => arg_str a | None => (false, s_dots) end)).
-    { destruct e as [a|]; [cbn [option_map]; rewrite arg_str_untag; reflexivity|reflexivity]. }
-    rewrite E, !untag_length.
+    rewrite !untag_length.
     destruct (Z.of_nat _ <=? _)%Z; [reflexivity|].
     cbn [res_map untag_val]. rewrite py_slice_untag, untag_app. reflexivity.
   - (* truncatewords *)
-    assert (E : snd match option_map untag_arg e with Some a => arg_str a | None => (false, s_dots) end
-                = untag (snd match e with Some a => arg_str a | None => (false, s_dots) end)).
-    { destruct e as [a|]; [cbn [option_map]; rewrite arg_str_untag; reflexivity|reflexivity]. }
-    rewrite E.
     assert (Hw : wsplit (untag (snd (tls_plain v))) [] = map untag (wsplit (snd (tls_plain v)) []))
       by apply (wsplit_untag _ []).
     assert (Hj : forall l, join_with [32] (map untag l) = untag (join_with [32] l))
       by (intro l; apply (join_with_untag [32])).
     rewrite Hw, !map_length.
     destruct (MAX_TRUNC_WORDS <=? _)%Z; [reflexivity|].
-    destruct (Z.of_nat _ <=? _)%Z; cbn [res_map untag_val].
-    + rewrite Hj. reflexivity.
-    + rewrite firstn_map, Hj, untag_app. reflexivity.
+    destruct (Z.of_nat _ <=? _)%Z; cbn [res_map].
+    + cbn [untag_val]. rewrite Hj. reflexivity.
+    + rewrite firstn_map, Hj.
+      match goal with |- context [(false, untag ?x)] => change (false, untag x) with (untag_m (false, x)) end.
+      rewrite str_add_untag. reflexivity.
   - (* default *)
     destruct v as [sf s|z|[|]| |l]; try reflexivity.
     + change (untag_val (VStr sf s)) with (VStr sf (untag s)).
@@ -1287,21 +1301,6 @@ Proof.
   destruct (eval_filter L f v) as [v'| | |]; try reflexivity. cbn [res_map bind]. apply IH.
 Qed.
 
-Definition tmpl_go (L : lib) :=
-  fix go (ps : list (left * list lfilter)) : res str :=
-    match ps with
-    | [] => Ok []
-    | (e, ch) :: ps' =>
-      do v <- eval_left L e ;;
-      do w <- eval_chain L ch v ;;
-      do r <- go ps' ;;
-      Ok (tls_text w ++ r)
-    end.
-
-Lemma eval_left_tmpl L ps :
-  eval_left L (LTmpl ps) = do r <- tmpl_go L ps ;; Ok (VStr false r).
-Proof. reflexivity. Qed.
-
 Definition untag_part (p : left * list lfilter) : left * list lfilter :=
   (untag_left (fst p), map untag_filter (snd p)).
 
@@ -1310,32 +1309,29 @@ Proof. reflexivity. Qed.
 Lemma untag_left_capture ps : untag_left (LCapture ps) = LCapture (map untag_part ps).
 Proof. reflexivity. Qed.
 
+Lemma capture_go_untag L ps :
+  lib_ok L ->
+  Forall (fun p => eval_left L (untag_left (fst p)) = res_map untag_val (eval_left L (fst p))) ps ->
+  capture_go L (map untag_part ps) = res_map untag (capture_go L ps).
+Proof.
+  intros HL IH. induction ps as [|[e ch] ps IHps]; [reflexivity|].
+  inversion IH as [|? ? Pe Pps]; subst. cbn [fst] in Pe.
+  cbn [map untag_part fst snd capture_go]. fold (capture_go L). rewrite Pe.
+  destruct (eval_left L e) as [v| | |]; try reflexivity. cbn [res_map bind].
+  rewrite eval_chain_untag by exact HL.
+  destruct (eval_chain L ch v) as [w| | |]; try reflexivity. cbn [res_map bind].
+  rewrite (IHps Pps). destruct (capture_go L ps) as [r| | |]; try reflexivity.
+  cbn [res_map bind]. rewrite tls_ae_untag, untag_app. reflexivity.
+Qed.
+
 Lemma eval_left_untag L e :
   lib_ok L -> eval_left L (untag_left e) = res_map untag_val (eval_left L e).
 Proof.
   intro HL. induction e as [s|w|ps IH|ps IH] using left_ind'; try reflexivity.
-  - rewrite untag_left_tmpl, !eval_left_tmpl.
-    assert (E : tmpl_go L (map untag_part ps) = res_map untag (tmpl_go L ps)).
-    { induction ps as [|[e ch] ps IHps]; [reflexivity|].
-      inversion IH as [|? ? Pe Pps]; subst. cbn [fst] in Pe.
-      cbn [map untag_part fst snd tmpl_go]. fold (tmpl_go L). rewrite Pe.
-      destruct (eval_left L e) as [v| | |]; try reflexivity. cbn [res_map bind].
-      rewrite eval_chain_untag by exact HL.
-      destruct (eval_chain L ch v) as [w| | |]; try reflexivity. cbn [res_map bind].
-      rewrite (IHps Pps). destruct (tmpl_go L ps) as [r| | |]; try reflexivity.
-      cbn [res_map bind]. rewrite tls_text_untag, untag_app. reflexivity. }
-    rewrite E. destruct (tmpl_go L ps); reflexivity.
-  - rewrite untag_left_capture, !eval_left_capture.
-    assert (E : capture_go L (map untag_part ps) = res_map untag (capture_go L ps)).
-    { induction ps as [|[e ch] ps IHps]; [reflexivity|].
-      inversion IH as [|? ? Pe Pps]; subst. cbn [fst] in Pe.
-      cbn [map untag_part fst snd capture_go]. fold (capture_go L). rewrite Pe.
-      destruct (eval_left L e) as [v| | |]; try reflexivity. cbn [res_map bind].
-      rewrite eval_chain_untag by exact HL.
-      destruct (eval_chain L ch v) as [w| | |]; try reflexivity. cbn [res_map bind].
-      rewrite (IHps Pps). destruct (capture_go L ps) as [r| | |]; try reflexivity.
-      cbn [res_map bind]. rewrite tls_ae_untag, untag_app. reflexivity. }
-    rewrite E. destruct (capture_go L ps); reflexivity.
+  - rewrite untag_left_tmpl, !eval_left_tmpl, (capture_go_untag L ps HL IH).
+    destruct (capture_go L ps); reflexivity.
+  - rewrite untag_left_capture, !eval_left_capture, (capture_go_untag L ps HL IH).
+    destruct (capture_go L ps); reflexivity.
 Qed.
 
 (** ** The tagged run IS the real run: erasing the tags from the inputs erases
